@@ -276,3 +276,17 @@ Definition dmx_item_truncated (tok : str) : bool :=
 Definition dmx_text_in_finding (input : str) : bool :=
   if is_empty input then false else
   existsb dmx_item_truncated (firstn DMX_UNIVERSE_SIZE (string_split [44] input)).
+
+(* ------------------------------------------------------------------ operator<< on a caller's stream
+   Every value type's operator<< is  out << value.ToString() : the printers are pure functions of
+   the value, so on a stream carrying arbitrary format state (adjustment, fill, pending width,
+   base) the value appears as its ToString() text inserted as ONE string field (padded to the
+   pending width with the caller's fill on the caller's side, width then reset), and the stream's
+   state is unchanged: a following integer is printed in the caller's base, and a later setw()
+   field uses the caller's fill and adjustment.  [v] is the ToString() text of the value.
+   Written sequence:  setw(w) << value << '|' << n << '|' << value << '|' << setw(12) << n      *)
+Definition stream_field (w : nat) (fill : N) (left : bool) (s : str) : str :=
+  if left then s ++ repeat fill (w - length s) else pad_left w fill s.
+Definition stream_seq (w : nat) (fill : N) (left hexbase : bool) (n : N) (v : str) : str :=
+  let num := if hexbase then to_hex n else to_dec n in
+  stream_field w fill left v ++ [124] ++ num ++ [124] ++ v ++ [124] ++ stream_field 12 fill left num.
